@@ -2,16 +2,11 @@ import verif  # noqa: F401
 from checks import fc_common
 
 MANIFEST = dict(
-    text="Coq: executable Impl model of ProtoArray/ProtoVoteStore/ProtoForkChoice (as repaired by fixes/C09-*, C10-*, C09-*.diff) and a Spec "
-         "that recomputes LMD-GHOST from scratch (subtree weights of the latest accepted votes, viability filter, ties to the greater root). Theorems (coq/Properties/C09.v) "
-         "are about all histories; what is not yet proved for all histories is stated as C09_full and covered by _partial theorems. "
-         "Tie to /repo: random and directed operation histories (forks, gap slots, late/duplicate blocks, double proposals, prunes) are run on the "
-         "real Go code; every Head/FindHead/ProcessAttestation result is compared with the Impl model and, independently, with the Spec.",
-    note="Trusted: Coq kernel+VM, harness/driver, the hand-written model (tied by execution), the Spec reading of zrnt's block/slot graph. "
-         "Known finding prune_keeps_late_fork (nodes inserted after the new finalized node on other branches survive a prune) is reported as KNOWN-FINDING.",
-    technique="Coq proof (invariants over operation histories) + Go-vs-model-vs-spec differential correspondence on operation histories",
-    design="4/C09-C09")
+    text="PARTIAL proof + correspondence. Coq: Impl model and a Spec that recomputes LMD-GHOST from scratch (subtree sums of the latest accepted votes, viability filter, ties to the greater root). Proved for ALL states and inputs: the latest-message rule vote_once (a vote touches its validator's tracker only, a strictly later target epoch replaces the pending vote, older/equal change nothing; a refresh never changes pending votes and counts a vote only when its node is known); the Spec's head is a viable node of the tree; snapshot defects as `_refuted` witnesses. Not proved (stated as C09_head_refines): weights_inv and best_links_inv. Tie to /repo on every run: histories with moving votes, changing balances, updates and prunes; every Head/FindHead/ProcessAttestation result AND every node weight (order-independent checksum over the node table vs the Spec's subtree sums) is compared after each head computation and update; all results also against the Impl model.",
+    note="Trusted: Coq kernel+VM, harness/driver, the hand-written Impl model (tied to /repo by differential execution of histories: values, sink calls, private-state checksum through verif_hooks.go), the Spec (my reading of the property on zrnt's block/slot graph, design/C09-C11.md). No axioms (Print Assumptions: closed). PARTIAL: the refinement Impl=Spec over all histories (Cxx_full / *_refine(s) in coq/Properties) is not proved in full; the part not proved rests on the correspondence runs. Known finding prune_keeps_late_fork (OnPrune drops a prefix of the node table only) is reported as KNOWN-FINDING. The model describes /repo with fixes/SERIES-forkchoice applied; on the unpatched tree the check reports VIOLATIONs with the failing history.",
+    technique="Coq proof (simulation/invariants over operation histories, partial) + Go-vs-Impl-vs-Spec differential correspondence on operation histories",
+    design="4/C09-C11")
 
 
 def make_check():
-    return fc_common.make("C09")
+    return fc_common.make('C09')
